@@ -135,8 +135,8 @@ type (
 		Op   string
 		X, Y Expr
 	}
-	ECond  struct{ C, A, B Expr }
-	ESel   struct {
+	ECond struct{ C, A, B Expr }
+	ESel  struct {
 		X Expr
 		F string
 	}
